@@ -269,7 +269,10 @@ fn exec_prog_iso(pool: &[Bdd], vs: &BddVariableSet, prog: &str, isolate: bool) -
         if operand_text(&locals) != before { text.push_str("!operand-changed"); }
         if isolate {
             let locals_ref: &[V] = &locals;
-            let fresh = std::thread::scope(|sc| sc.spawn(move || show(&eval_one(pool, vs, locals_ref, ins))).join());
+            let fresh = std::thread::scope(|sc| {
+                std::thread::Builder::new().stack_size(512 * 1024)
+                    .spawn_scoped(sc, move || show(&eval_one(pool, vs, locals_ref, ins))).expect("spawn").join()
+            });
             iso.push(fresh.unwrap_or_else(|_| s("thread-died")));
         }
         texts.push(text);
@@ -294,6 +297,8 @@ fn texts(results: &[Vec<String>]) -> String {
     if results.is_empty() { return s("~"); }
     results.iter().map(|r| if r.is_empty() { s("~") } else { r.join(";") }).collect::<Vec<_>>().join("/")
 }
+
+const ISO_PROGS: usize = 3;
 
 fn run_sequential(pool: &[Bdd], vs: &BddVariableSet, progs: &[&str]) -> Vec<Vec<String>> {
     progs.iter().map(|p| exec_prog(pool, vs, p)).collect()
@@ -365,14 +370,15 @@ pub fn run(key: &str, a: &[String], out: &mut Out) {
             let progs: Vec<&str> = a[2].split('/').collect();
             let (pool, vs) = (Arc::new(pool), Arc::new(var_set(n)));
             // the sequential reference; every single operation is also evaluated by a fresh thread
-            let both: Vec<(Vec<String>, Vec<String>)> = progs.iter().map(|p| exec_prog_iso(&pool, &vs, p, true)).collect();
+            // (of the first ISO_PROGS programs of a case: a thread spawn per operation is the dominant cost)
+            let both: Vec<(Vec<String>, Vec<String>)> = progs.iter().enumerate().map(|(i, p)| exec_prog_iso(&pool, &vs, p, i < ISO_PROGS)).collect();
             let seq: Vec<Vec<String>> = both.iter().map(|x| x.0.clone()).collect();
-            let iso: Vec<Vec<String>> = both.iter().map(|x| x.1.clone()).collect();
+            let iso: String = both.iter().enumerate().map(|(i, x)| if i < ISO_PROGS { hashes(&[x.1.clone()]) } else { s("-") }).collect::<Vec<_>>().join("/");
             let thr = run_threads(&pool, &vs, &progs);
             let again = run_sequential(&pool, &vs, &progs);
             let child = run_child(&format!("run {} {} {}", a[0], a[1], a[2]));
             let after = if pool.is_empty() { s("~") } else { pool.iter().map(fmt_bdd).collect::<Vec<_>>().join("/") };
-            out.case(key, a, &[texts(&seq), hashes(&thr), hashes(&again), child, after, hashes(&iso)]);
+            out.case(key, a, &[texts(&seq), hashes(&thr), hashes(&again), child, after, iso]);
         }
         "C19.rep" => {
             // n pool prog reps => texts-of-first-evaluation, then the hashes of `reps` evaluations of the whole
@@ -450,7 +456,8 @@ fn gen_prog(rng: &mut Rng64, n: usize, pool_len: usize, len: usize) -> String {
     while out.len() < len {
         let bdd_locals: Vec<usize> = (0..is_bdd.len()).filter(|i| is_bdd[*i]).collect();
         let r = |rng: &mut Rng64| -> String {
-            if rng.chance(1, 150) { return format!("l{}", is_bdd.len() + 3); }           // dangling reference
+            let dangling = is_bdd.len() + 3;
+            if rng.chance(1, 150) { return format!("l{}", dangling); }           // dangling reference
             if !bdd_locals.is_empty() && rng.bool() { format!("l{}", rng.pick(&bdd_locals)) }
             else if pool_len == 0 { s("p0") } else { format!("p{}", rng.below(pool_len as u64)) }
         };
@@ -458,11 +465,8 @@ fn gen_prog(rng: &mut Rng64, n: usize, pool_len: usize, len: usize) -> String {
         let choice = rng.below(23);
         if choice >= 20 {
             // a burst of dry runs / size-limited operators in a row on the same thread
-            for _ in 0..(2 + rng.below(4)) {
-                let (ins, b) = gen_limited(rng, n, &r);
-                out.push(ins);
-                is_bdd.push(b);
-            }
+            let burst: Vec<(String, bool)> = (0..(2 + rng.below(4))).map(|_| gen_limited(rng, n, &r)).collect();
+            for (ins, b) in burst { out.push(ins); is_bdd.push(b); }
             continue;
         }
         let (ins, b) = match choice {
@@ -577,11 +581,11 @@ pub fn gen(tier: Tier, rng: &mut Rng64, out: &mut Out) {
     //      optimiser real choices
     let rep_prog = REP_OPS.iter().map(|x| if x.contains(':') { x.to_string() } else { format!("{}:p0", x) }).collect::<Vec<_>>().join(";");
     let reps = s("8");
-    let mut rep_case = |b: &Bdd, n: usize, out: &mut Out| run("C19.rep", &[n.to_string(), fmt_bdd(b), rep_prog.clone(), reps.clone()], out);
+    let rep_case = |b: &Bdd, n: usize, out: &mut Out| run("C19.rep", &[n.to_string(), fmt_bdd(b), rep_prog.clone(), reps.clone()], out);
     for t in 0..256u64 {
-        if thorough || t % 2 == 0 || t % 7 == 0 { rep_case(&bdd_of_tt(3, &tt_from_index(3, t)), 3, out); }
+        if thorough || t % 2 == 0 { rep_case(&bdd_of_tt(3, &tt_from_index(3, t)), 3, out); }
     }
-    for _ in 0..(if thorough { 6000 } else { 420 }) {
+    for _ in 0..(if thorough { 6000 } else { 360 }) {
         let n = 4 + (rng.below(6) as usize) / 3 + (rng.below(6) as usize) / 4;     // 4 mostly, 5, 6
         rep_case(&bdd_of_tt(n, &core_tt(rng, n)), n, out);
     }
@@ -606,7 +610,7 @@ pub fn gen(tier: Tier, rng: &mut Rng64, out: &mut Out) {
         }).collect();
         run("C19.run", &[n.to_string(), pool.join("/"), progs.join("/")], out);
     }
-    let rounds = if thorough { 30000 } else { 1800 };
+    let rounds = if thorough { 30000 } else { 1000 };
     for round in 0..rounds {
         if out.full() { break; }
         let n = 1 + rng.below(8) as usize;
